@@ -6,7 +6,7 @@ staying alive, die, or produce the match late.  The clock is virtual, so
 "finished within T + eps" and "not before T" are exact assertions.
 """
 from . import harness
-from .engine import Violation, gen_costs, collect_info
+from .engine import Violation, gen_costs, collect_info, gen_epoch
 from .harness import EOF, TIMEOUT
 from .world import SimHang, HarnessError
 
@@ -174,6 +174,7 @@ def generate(rng):
         scn['peer_kind'] = 'late_match'
         scn['peer'] = [{'op': 'w', 'd': 'zz' + TOKEN, 'dt': rng.choice([1000, 200000, 5000000])}, {'op': 'pause'}]
         scn.pop('eintr', None)
+    gen_epoch(rng, scn, 0.4)
     scn['vt_cap_s'] = 400000
     scn['step_cap'] = 250000
     if scn.get('use_poll') and scn.get('transport') in ('pty', 'fd') and rng.random() < 0.3:
